@@ -155,7 +155,7 @@ def co_oxidation(ctx, order, cyclic, dense):
 
 
 # ------------------------------------------------------------------------ toll station
-@scenario('C13', 'toll_station', lambda tier: [{'lanes': l, 'cars': c} for (l, c) in (((2, 1), (3, 1), (2, 2)) if tier == 'quick' else ((2, 1), (3, 1), (2, 2), (4, 1), (3, 2), (2, 3)))])
+@scenario('C13', 'toll_station', lambda tier: [{'lanes': l, 'cars': c} for (l, c) in (((2, 1), (3, 1), (2, 2)) if tier == 'quick' else ((2, 1), (3, 1), (2, 2), (3, 2), (2, 3)))])
 def toll_station(ctx, lanes, cars):
     """toll_station(lanes, cars) == master-equation generator of the documented traffic network (arrival/departure densities as exact terms over
     exp / sqrt / pi); off-diagonal >= 0 given exp > 0; the 1e-14 relative cut of the SLIM SVD is outside (trivial factorisation keeps everything)"""
